@@ -232,13 +232,14 @@ def props_check(prop):
 
 def source_tie(ctx, prop, specs):
     """second tie: regenerate the named Python functions of /repo as Coq definitions (harness/pytranslate.py) and
-    re-check the fixed lemmas of harness/ties/Tie_<prop>.v against them. specs: [(file under REPO, function, coq name)]"""
+    re-check the fixed lemmas of harness/ties/Tie_<prop>.v against them. specs: [(file under REPO, function, coq name[, module constants that become parameters])]"""
     import pytranslate
     tmpl = open(os.path.join(VERIF, 'harness', 'ties', 'Tie_%s.v' % prop)).read()
     lemmas = re.findall(r'^Lemma\s+(\w+)', tmpl, flags=re.M)
     ctx.obligations.extend(lemmas)
     try:
-        gen = ''.join(pytranslate.translate(os.path.join(REPO, f), fn, name)[1] for f, fn, name in specs)
+        gen = ''.join(pytranslate.translate(os.path.join(REPO, sp[0]), sp[1], sp[2], consts=(sp[3] if len(sp) > 3 else ()))[1]
+                      for sp in specs)
     except pytranslate.TranslateError as e:
         ctx.violation('tie:' + prop, 'source tie broken: harness/pytranslate.py cannot translate the current source of %s: %s'
                       % ([s[1] for s in specs], e), no_input=True)
